@@ -411,8 +411,12 @@ func gen(out *vc.Out, r *vc.Rand, thorough bool) {
 
 	// G. two facade instances (nodes) on one shared cache and one persistent tier: the calls of a pair are
 	// issued on different nodes, all interleavings
-	for _, key := range append(append([]string{}, catKeys...), "tunnox:index:conncode:target:k1", "lock:cleanup_task:t1",
-		repos.KeyHTTPDomainMappingList) {
+	twoKeys := []string{catKeys[1], catKeys[2], catKeys[3], "lock:cleanup_task:t1"}
+	if thorough {
+		twoKeys = append(append([]string{}, catKeys...), "tunnox:index:conncode:target:k1", "lock:cleanup_task:t1",
+			repos.KeyHTTPDomainMappingList)
+	}
+	for _, key := range twoKeys {
 		for _, c := range []cf{{false, true}, {true, true}, {true, false}} {
 			for _, in := range inits(key, c.sh, "s1")[:2] {
 				for _, ops := range [][]string{{"set:s5:0", "get"}, {"get", "del"}, {"set:s5:0", "ex"}, {"setnx:s5:0", "get"},
